@@ -83,3 +83,50 @@ def pick(rng, items, k):
     if len(items) <= k:
         return items
     return rng.sample(items, k)
+
+
+class Space:
+    """A finite product space described by its dimensions; cases are built by
+    `build(**choice)` (None = combination not applicable).  Enumerated lazily so
+    that very large finite spaces can be sampled (seeded) without being
+    materialised."""
+
+    def __init__(self, name, dims: dict, build):
+        self.name = name
+        self.dims = {k: list(v) for k, v in dims.items()}
+        self.build = build
+        self.size = 1
+        for v in self.dims.values():
+            self.size *= len(v)
+
+    def decode(self, idx):
+        choice = {}
+        for k, v in self.dims.items():
+            idx, r = divmod(idx, len(v))
+            choice[k] = v[r]
+        return choice
+
+    def all(self):
+        out = []
+        for i in range(self.size):
+            c = self.build(**self.decode(i))
+            if c is not None:
+                out.extend(c if isinstance(c, list) else [c])
+        return out
+
+    def sample(self, rng, k):
+        if self.size <= k:
+            return self.all()
+        out = []
+        seen = set()
+        tries = 0
+        while len(out) < k and tries < 20 * k:
+            tries += 1
+            i = rng.randrange(self.size)
+            if i in seen:
+                continue
+            seen.add(i)
+            c = self.build(**self.decode(i))
+            if c is not None:
+                out.extend(c if isinstance(c, list) else [c])
+        return out
